@@ -463,6 +463,44 @@ mentions the mode only through `mode.cap`, which is `none` for the byte-level re
 reader as repaired needs no length condition on any file -/
 example : repairedReader.cap = none := rfl
 
+/-! ## standard input: `-w -`, `^-`, and what a lone `-` inside a list is -/
+
+/-- `-w -` IS `-w ^-` (the `case 'w'` of `opt_args` rewrites the lone dash) -/
+theorem dash_is_caret_dash (mode : LineMode) (fs : FS) (st : St) :
+    optargProcess mode fs st ['-'] = optargProcess mode fs st ['^', '-'] := by
+  have : listSplit [','] ['^', '-'] = [['^', '-']] := by decide
+  simp [optargProcess, this]
+
+/-- STDIN IS READ ONCE: the first stdin source takes everything (whatever the reader does with it), a second one
+— `-w - -w -`, `-w ^-,^-`, `-w - ` then WCOLL=`-` — finds end of file: it contributes no expression, no warning
+and no error (it still counts as a source: the list exists) -/
+theorem stdin_read_once (mode : LineMode) (fs : FS) (st : St) (hf : st.fatal = false) :
+    (argProcess mode fs st ['^', '-']).stdin = [] ∧
+    (st.stdin = [] → (argProcess mode fs st ['^', '-']).exprs = st.exprs ∧
+      (argProcess mode fs st ['^', '-']).nwarn = st.nwarn ∧ (argProcess mode fs st ['^', '-']).fatal = false ∧
+      (argProcess mode fs st ['^', '-']).created = true) := by
+  have harg : argProcess mode fs st ['^', '-'] = absorb st false (readWcoll mode fs st.stdin ['-']) := by
+    simp [argProcess, hf, isspaceC]
+  have hempty : (readWcoll mode fs [] ['-']).1 = {} := by
+    have hch : chunks mode [] = [] := by
+      rw [chunks_eq]; simp [chunksGo]
+    simp [readWcoll, readStream, hch]
+  refine ⟨?_, fun he => ?_⟩
+  · rw [harg]
+    simp only [absorb, readWcoll, if_true]
+    split <;> simp
+  · rw [harg, he]
+    simp [absorb, hempty, hf]
+
+/-- a lone `-` INSIDE a comma-separated list is not standard input: it is the exclusion of the empty word
+(`-w a,-` = target `a`, exclusion ``); only the whole option argument `-` and the word `^-` mean stdin -/
+theorem dash_inside_list_is_not_stdin :
+    (optargProcess .whole [] { stdin := "s1\n".toList } "a,-".toList).exprs = ["a".toList] ∧
+    (optargProcess .whole [] { stdin := "s1\n".toList } "a,-".toList).excl = [[]] ∧
+    (optargProcess .whole [] { stdin := "s1\n".toList } "a,-".toList).stdin = "s1\n".toList ∧
+    (optargProcess .whole [] { stdin := "s1\n".toList } "a,^-".toList).exprs = ["a".toList, "s1".toList] := by
+  decide
+
 /-! ## where included files are looked up -/
 
 /-- THE DIRECTORY OF THE FILE NAMED ON THE COMMAND LINE, AT EVERY DEPTH.  Every file the reader opens through
